@@ -11,7 +11,7 @@ SHRINK = False
 RULE = ("worlds with 2-8 user types (vftables, bases, cross-module uses, pointers to generated <T>Vftable types, accepted and "
         "rejected ones). Each is built under: the sorted resolution priority, its reverse, every permutation of the priority "
         "when there are <= 5 (quick) / 6 (thorough) user items, random priorities beyond that (all through the pyxis_verif "
-        "hook); every permutation of module-addition order up to 24; twice in one process; and without the hook in fresh "
+        "hook); every permutation of module-addition order up to 24 (files added through SemanticState::add_file in that order, then build + write_module, i.e. pyxis::build without its sorted discovery); twice in one process; and without the hook in fresh "
         "processes (real HashMap seeds). All variants of a case must be byte-identical (file hashes) or all fail; the model "
         "is compared with the implementation on every hooked variant. non-trivial = a case with >= 3 distinct variants that "
         "all agreed; distinct by case text")
@@ -37,6 +37,9 @@ def generate(rng, tier):
         c = add_collision(rng, gen.world(rng, 'x%d' % i, opts=o))
         c = [x for x in c if tag(x) != 'expect']
         cases.append(c)
+    # the same short names defined in several modules, used by fields, functions and extern values of one of them
+    from .c11 import gen_case
+    cases += [gen_case(rng, 'clash%d' % i) for i in range(n // 3)]
     for c in cases:
         c.append([S('vseed'), rng.randrange(1 << 30)])
     return cases
@@ -66,6 +69,8 @@ def with_modules(c, mods, cid):
     c2 = list(c)
     c2[1] = cid
     c2[4] = [S('modules')] + list(mods)
+    # `pyxis::build` discovers files in sorted order whatever the case says; the harness adds them through the API in this order
+    c2.append([S('api-order')])
     return c2
 
 def signature(obs):
